@@ -532,6 +532,19 @@ def family_45():
     migf5 = [[[i, j], 0.2 + 0.3 * i + 0.07 * j] for i in range(5) for j in range(5) if i != j]
     out.append(b4f + [['int', 0.02, [1.0, 0.6, 1.2, 0.8], [], [0.0] * 4, [0.5] * 4, [0] * 4], ['split', 2],
                       ['int', 0.01, [1.0, 0.6, 1.2, 0.8, 0.9], migf5, [0.0] * 5, [0.5] * 5, [0] * 5]])
+    # two pulses at the same instant that do not commute (the destination of the first is a source of the second): their order is part of the model
+    end2 = ['int', 0.02, [1.0, 0.6], [], [0.0] * 2, [0.5] * 2, [0, 0]]
+    out.append(base + [['pulse', 0, [0.25]], ['pulse', 1, [0.5]], end2])
+    out.append(base + [['pulse', 1, [0.25]], ['pulse', 0, [0.5]], end2])
+    b3s = base + [['split', 1], ['int', 0.03, [1.0, 0.6, 1.2], [], [0.0] * 3, [0.5] * 3, [0, 0, 0]]]
+    end3 = ['int', 0.02, [1.0, 0.6, 1.2], [], [0.0] * 3, [0.5] * 3, [0, 0, 0]]
+    out.append(b3s + [['pulse', 1, [0.25, 0.0]], ['pulse', 2, [0.0, 0.5]], end3])
+    out.append(b3s + [['pulse', 2, [0.0, 0.5]], ['pulse', 1, [0.25, 0.0]], end3])
+    # a fifth population founded by admixture, with every way of spreading unequal fractions over the four parents' slots
+    for props in ([0.25, 0.25, 0.0], [0.0, 0.25, 0.5], [0.5, 0.0, 0.0], [0.125, 0.0, 0.25]):
+        out.append(b4f + [['int', 0.02, [1.0, 0.6, 1.2, 0.8], [], [0.0] * 4, [0.5] * 4, [0] * 4], ['admix_new', props],
+                          ['int', 0.01, [1.0, 0.6, 1.2, 0.8, 0.7], [], [0.0] * 5, [0.5] * 5, [0] * 5]])
+    family_45.n_always = len(out)
     for p3 in (0, 1):
         b3 = base + [['split', p3], ['int', 0.03, [1.0, 0.6, ['exp', 0.5, 1.5]], [[[0, 2], 0.5]], [0.0] * 3, [0.5] * 3, [0, 0, 0]]]
         for p4 in (0, 1, 2):
@@ -576,7 +589,7 @@ def run(ctx):
         cases.append({'kind': 'program', 'pts': 10, 'programs': progs[lo:lo + per]})
     f45 = family_45()
     if ctx.quick:
-        f45 = [pr for i, pr in enumerate(f45) if i < 2 or i % 3 == ctx.seed % 3]
+        f45 = [pr for i, pr in enumerate(f45) if i < family_45.n_always or i % 3 == ctx.seed % 3]
         ctx.cap_hit('quick: one third of the 4-5 population family (rotated with the seed) and programs up to length 3; thorough: all, length 5')
     for lo in range(0, len(f45), 3):
         cases.append({'kind': 'program', 'pts': 8, 'programs': f45[lo:lo + 3]})
